@@ -11,7 +11,7 @@ namespace SkipNet
 open Network Scalar VJP Walk LoopSpec DenseStack LayerChain SkipWalk ChainLinks DenseBridge
 
 /-- a square dense layer as a link -/
-noncomputable def denseLink {m : ℕ} (q : Act × V (Fin m × Fin m) × Vec m) : Link (iVec m) (eVec m) where
+noncomputable def denseLink {m : ℕ} (q : Act × V (Fin m × Fin m) × Vec m) : Link (iVec m) where
   l := .dense (denseLayer q.1 q.2.1 q.2.2)
   f := denseFn (Act.f q.1) q.2.1 q.2.2
   b := denseBwd q.1 q.2.1 q.2.2
@@ -20,7 +20,7 @@ noncomputable def denseLink {m : ℕ} (q : Act × V (Fin m × Fin m) × Vec m) :
   wg := denseWG q.1 q.2.1 q.2.2
 
 theorem denseLink_real {m : ℕ} (q : Act × V (Fin m × Fin m) × Vec m) (ha : q.1 ≠ .softmax) (hm : 0 < m) (p : Vec m) :
-    (denseLink q).Real p := by
+    (denseLink q).Real (eVec m) (eVec m) p := by
   obtain ⟨h1, h2⟩ := real_dense (denseLayer q.1 q.2.1 q.2.2) q.1 q.2.1 q.2.2 (denseLayer_isDense q.1 q.2.1 q.2.2) ha hm hm p
   exact ⟨h1, h2⟩
 
@@ -31,7 +31,7 @@ theorem denseLink_vjp {m : ℕ} (q : Act × V (Fin m × Fin m) × Vec m) (ha : q
 
 open ConvVJP ConvBridge ConvNet in
 /-- a shape-preserving convolution as a link -/
-noncomputable def convLink {f kh kw h w : ℕ} (q : Conv ℝ × Act × V (I4 f f kh kw)) : Link (iVol f h w) (eVol f h w) where
+noncomputable def convLink {f kh kw h w : ℕ} (q : Conv ℝ × Act × V (I4 f f kh kw)) : Link (iVol f h w) where
   l := .conv q.1
   f := convFn q.1 q.2.1 q.2.2 h w h w
   b := convBwdX q.1 q.2.1 q.2.2 h w h w
@@ -42,7 +42,7 @@ noncomputable def convLink {f kh kw h w : ℕ} (q : Conv ℝ × Act × V (I4 f f
 open ConvVJP ConvBridge ConvNet in
 theorem convLink_real {f kh kw h w : ℕ} (q : Conv ℝ × Act × V (I4 f f kh kw)) (hl : IsConv q.1 q.2.1 q.2.2 h w h w)
     (ha : q.2.1 ≠ .softmax) (hf : q.1.flatten = false) (p : V (I3 f h w)) :
-    (convLink (h := h) (w := w) q).Real p := by
+    (convLink (h := h) (w := w) q).Real (eVol f h w) (eVol f h w) p := by
   have r := real_conv q.1 q.2.1 q.2.2 hl ha hf p
   exact ⟨r.1, r.2⟩
 
